@@ -51,7 +51,7 @@ def run(ctx, replay):
         scen = []
         n = 0
         for (depth, num) in ([(4, 60), (7, 100)] if quick else [(4, 300), (7, 600), (10, 400)]):
-            hs = ctx.generate(D, "Gen_RoomHist", "CONSTANTS\n  MaxLen = %d\n  WithAttack = TRUE\nSPECIFICATION GSpec\nINVARIANT Emit\nCHECK_DEADLOCK FALSE\n" % depth,
+            hs = ctx.generate(D, "Gen_RoomHist", "CONSTANTS\n  MaxLen = %d\n  WithAttack = TRUE\n  SecondActor = FALSE\nSPECIFICATION GSpec\nINVARIANT Emit\nCHECK_DEADLOCK FALSE\n" % depth,
                               "hist_%d" % depth, workers=1, simulate="num=%d" % (num * 3), depth=depth + 2, timeout=300, limit=num)
             for h in hs:
                 n += 1
